@@ -4,6 +4,7 @@ package c19
 
 import (
 	"math/rand/v2"
+	"regexp"
 	"strings"
 	"unicode/utf8"
 
@@ -32,12 +33,28 @@ func renameVars(r *rand.Rand, p gen.Program) gen.Program {
 			m[v.Name] = sharedNames[perm[i]]
 		}
 	}
+	// names written inside comments and string literals ("$name" as text) follow the renaming
+	mention := regexp.MustCompile(`\$[a-z_][a-z0-9_]*`)
+	inText := func(t string) string {
+		return mention.ReplaceAllStringFunc(t, func(w string) string {
+			if n, ok := m[w[1:]]; ok {
+				return "$" + n
+			}
+			return w
+		})
+	}
 	ren := func(e *gen.Expr) {
 		if e.K == "var" {
 			if n, ok := m[e.S]; ok {
 				e.S = n
 			}
 		}
+		if e.K == "str" {
+			e.S = inText(e.S)
+		}
+	}
+	for i := range p.Stmts {
+		p.Stmts[i].Comment = inText(p.Stmts[i].Comment)
 	}
 	for i := range p.Vars {
 		if n, ok := m[p.Vars[i].Name]; ok {
